@@ -227,6 +227,14 @@ def F26():
     raise AssertionError(f"too wide bit-field value silently dumped as {out!r}")
 
 
+def F27():
+    cs = cstruct()
+    cs.load("enum E : uint16 { A = 1 }; struct inner { uint16 a:4; E b:4; };", align=True)
+    cs.load("struct t { uint8 t; inner i; uint8 e; };")
+    raw = b"\x01\x21\x00\x00\x09"
+    assert cs.t(raw).dumps() == raw, cs.t(raw).dumps()  # a pad byte was written in front of the pending unit
+
+
 ALL = {k: v for k, v in globals().items() if k.startswith("F") and callable(v)}
 
 if __name__ == "__main__":
